@@ -35,6 +35,7 @@ import (
 	"golang.org/x/tools/go/ssa"
 
 	llssa "github.com/goplus/llgo/ssa"
+	"github.com/goplus/llgo/ssa/abi"
 )
 
 // -----------------------------------------------------------------------------
@@ -1752,7 +1753,10 @@ func (p *context) typeArgName(t types.Type) string {
 	case *types.Basic:
 		return t.String()
 	case *types.Named:
-		name := p.localNamedName(t, p.isLocalType(t.Obj()))
+		// The T declared in one function is not the T declared in another:
+		// a local type is identified by its scope as well (as in its
+		// descriptor name), not only by its ordinal within that scope.
+		name := p.localNamedName(t, p.isLocalType(t.Obj())) + abi.ScopeIndices(t.Obj())
 		if pkg := t.Obj().Pkg(); pkg != nil {
 			return pkg.Path() + "." + name
 		}
